@@ -278,6 +278,9 @@ theorem assertAppliesLayer_preFail (mt : Str → Str → Bool) (s : LayerRuleSta
     by_cases h2 : configMissing (convertAliases r.cfg) = true
     · simp only [h2, if_true]; exact ⟨_, rfl⟩
     · simp only [h2, Bool.false_eq_true, if_false]
+      by_cases h0 : droppedAbsent g (convertAliases r.cfg) = true
+      · simp only [h0, if_true]; exact ⟨_, rfl⟩
+      simp only [h0, Bool.false_eq_true, if_false]
       have h3 := h.resolve_left h2
       simp only [h3, if_true]; exact ⟨_, rfl⟩
 
